@@ -47,6 +47,10 @@ def gen_base(rng, tier, idx, allow_underfull=False):
         pairs = rng.sample(pairs, 20)
     ops = [[a, b, bool(rng.random() < 0.5)] for a, b in pairs]
     rng.shuffle(ops)
+    if rng.random() < 0.4 and ops:
+        # the same requests again later on the same handler (nothing a request leaves behind may change the next)
+        again = [[a, b, bool(rng.random() < 0.5)] for a, b, _ in rng.sample(ops, min(len(ops), rng.randint(1, 6)))]
+        ops = (ops + again)[:26]
     return dict(P=int(np.prod(nprocs)), nprocs=nprocs, shape=shape, layouts=layouts,
                 dtype=rng.choice(['float64', 'float64', 'complex128', 'int64']),
                 ops=ops, extra=rng.choice([0, 0, 0, 1, 5]), reuse=rng.random() < 0.3, underfull=underfull,
